@@ -1,11 +1,11 @@
 //! C09 — integrals of log-polynomials (all nine degrees), C10 — accuracy of the quartic
 //! log-integral form. Drivers only record; oracles: oracles/c09.py, oracles/c10.py (400-bit).
 
-use crate::c01::coeff_vec;
-use crate::events::*;
-use crate::flat::*;
-use crate::gen::*;
-use crate::mon::*;
+use ppv::polygen::coeff_vec;
+use ppv::events::*;
+use ppv::flat::*;
+use ppv::gen::*;
+use ppv::mon::*;
 use piecewise_polynomial::*;
 use serde_json::json;
 
